@@ -69,8 +69,25 @@ inline std::vector<Op> g_history(Tape &t, int flavor = SEG_ANY, bool withObserve
   GenUri b = g_base(t, t.chance(4, 5), flavor);
   Op p0; p0.kind = 'P'; p0.text = b.text(); ops.push_back(p0);
   Op p1; p1.kind = 'P';
-  switch (t.weighted({5, 3, 2})) {
+  switch (t.weighted({5, 3, 2, 3})) {
     case 0: p1.text = g_ref(t, b, nullptr, flavor).text(); break;
+    case 3: {  // a sibling of the base: same scheme and authority, the base's directory plus one to three fresh segments
+      GenUri s = b;
+      size_t cut = s.path.rfind('/');
+      std::string dir = cut == std::string::npos ? std::string() : s.path.substr(0, cut + 1);
+      if (dir.empty() && s.hasAuth) dir = "/";
+      int n = t.range(1, 3);
+      std::string tail;
+      for (int i = 0; i < n; i++) { if (i) tail += '/'; tail += g_segment(t, flavor); }
+      s.path = dir + tail;
+      if (!s.hasAuth && s.path.compare(0, 2, "//") == 0) s.path = "/." + s.path.substr(1);
+      if (!s.hasAuth && !s.hasScheme && !s.path.empty() && s.path[0] != '/' && has_colon(s.path.substr(0, s.path.find('/')))) s.path = "./" + s.path;
+      if (!s.hasAuth && s.path.empty()) s.path = "a";
+      s.hasQuery = t.chance(1, 4); if (s.hasQuery) s.query = "sq";
+      s.hasFrag = false;
+      p1.text = s.text();
+      break;
+    }
     case 1: { GenUri s = g_base(t, true, flavor); if (t.coin()) { s.scheme = b.scheme; s.hasScheme = true; } if (t.coin()) { s.hasAuth = b.hasAuth; s.auth = b.auth; if (s.hasAuth && !s.path.empty() && s.path[0] != '/') s.path = "/" + s.path; } p1.text = s.text(); break; }
     default: p1.text = g_uri(t, flavor);
   }
